@@ -179,14 +179,23 @@ let run_dup (parts : string list) : string =
 let () = register "dup" run_dup
 
 (* ---------- kind: streams (C14, round 4) ----------
-   case:   tr=<doq|doh> m=<limit> k=<abandoned> fault=<lie|silent> conc=<0|1> dl=<ms> after=<n>
-   result: bad=<E..> after=<R..> late=0 || spec=..       (extracted [sc_case], Net/Streams.v) *)
+   case:   tr=<doq|doh|h3> m=<limit> k=<abandoned> fault=<lie|silent|nofin> conc=<0|1> dl=<ms> after=<n>
+           [fin=<now|never|late|reset>] [aconc=<0|1>]
+   result: bad=<E..> after=<R..> late=0 left=<n> || spec=..   (extracted [sc_case2] with the policy of the code,
+           Net/Streams.v: the release step on every exit of exchangeStream) *)
 let run_streams (parts : string list) : string =
   let f = fields parts in
-  let (bad, aft) = sc_case true (nat_of_int (ifld f "m")) (nat_of_int (ifld f "k")) (nat_of_int (ifld f "after")) in
+  let answered = (match fld_opt f "fin" with
+    | None | Some "now" -> SvFin | Some "never" -> SvNoFin | Some "late" -> SvLateFin | Some "reset" -> SvResetAfter
+    | Some s -> failwith ("streams: unknown fin " ^ s)) in
+  (* nofin (doh, h3): an HTTP message whose stream never ends is not a reply: the exchange ends at its deadline *)
+  let abandoned = (match fld f "fault" with "lie" | "nofin" -> SvLie | _ -> SvSilent) in
+  let ((bad, aft), left) = sc_case2 sc_code (nat_of_int (ifld f "m")) answered abandoned
+      (nat_of_int (ifld f "k")) (nat_of_int (ifld f "after")) in
   let str l = String.concat "" (List.map (fun b -> if b then "R" else "E") l) in
-  Printf.sprintf "bad=%s after=%s late=0 || spec=%s" (str bad) (str aft)
-    (if List.for_all (fun b -> b) aft && not (List.exists (fun b -> b) bad) then "ok" else "FAIL:c14-stream-capacity")
+  Printf.sprintf "bad=%s after=%s late=0 left=%d || spec=%s" (str bad) (str aft) (int_of_nat left)
+    (if List.for_all (fun b -> b) aft && not (List.exists (fun b -> b) bad) && int_of_nat left = 0 then "ok"
+     else "FAIL:c14-stream-capacity")
 
 let () = register "streams" run_streams
 
